@@ -10,6 +10,7 @@ Decided statically (DESIGN 4/C13):
             -> exception in the client API; exceptions in the server loop
             shut the node down
   PROTO     every client request kind has a branch (shared with C07)
+  FRESH     server mailbox ids come from a monotone counter
 """
 from __future__ import annotations
 
@@ -20,6 +21,7 @@ from ..report import Report
 from ..rules import q
 from ..rules import runtime as R
 from ..rules import valnum
+from ..rules.fresh import rule_fresh
 from ..source import AnalysisError
 from ..source import FunctionInfo
 from ..source import norm
@@ -62,6 +64,13 @@ def run(ctx: Ctx, rep: Report) -> None:
     maintenance(ctx, rep, det)
     error_chain(ctx, rep)
     client_kinds(ctx, rep)
+    # one client's late RESULT / ERROR must never land in another client's
+    # mailbox: mailbox ids are never reused
+    rule_fresh(
+        ctx, rep, R.DET, '_get_new_mailbox_id', 'self.mailbox_counter', None,
+        'a message for a finished or cancelled compilation must not be '
+        'attributed to another client\'s newer compilation', also=(R.ATT,),
+    )
 
 
 # ---------------------------------------------------------------------------
